@@ -737,3 +737,13 @@ def r18_5(F, R, spec):
               and H.recv_root(pushes[1]["args"][0]) is not None and H.origin_local(j["body"], H.recv_root(pushes[1]["args"][0])[0]) == pids[1])
         R.inst("R18.5", "join-shape", ok, sp=j["sp"], got=seq, expect="parent ++ '$' ++ inner_name")
     R.floor("R18.5", 3)
+
+
+def thorough(F, R, repo):
+    """thorough tier only: rustc's own verdict from an external crate on the type-level half of R18.2 (compile-fail witnesses with twins)."""
+    from lib import witness as W
+    R.rule("R18.6", "witnesses compiled by rustc from an external crate: for every checked newtype the tuple constructor is private (E0603) and "
+                    "from_inner_unchecked needs an unsafe block (E0133); each compile_fail block has a compiling twin")
+    s = W.run(F, R, "R18.6", want_prefix=["duke::"])
+    R.floor("R18.6", 30)
+    return s
